@@ -228,6 +228,8 @@ def py_decode(name, b):
         return ('ok', r)
     except UnicodeDecodeError as e:
         return ('err', e.start, e.end)
+    except common.CaseTimeout:
+        raise
     except Exception as e:  # noqa
         return ('crash', type(e).__name__ + ': ' + str(e)[:100])
 
@@ -240,6 +242,8 @@ def py_encode(name, t):
         return ('ok', r)
     except UnicodeEncodeError as e:
         return ('err', e.start, e.end)
+    except common.CaseTimeout:
+        raise
     except Exception as e:  # noqa
         return ('crash', type(e).__name__ + ': ' + str(e)[:100])
 
@@ -257,8 +261,17 @@ def oracle_decode_items(payload):
     fails = []
     cnt = {'ok': 0, 'err': 0}
     oks = []
+    hangs = 0
     for b in items:
-        r = py_decode(name, b)
+        try:
+            with common.inner_deadline(5):
+                r = py_decode(name, b)
+        except common.CaseTimeout:
+            fails.append(('hang', name, list(b), 'decoding these bytes did not finish within 5 s'))
+            hangs += 1
+            if hangs >= 3:
+                break
+            continue
         if r[0] == 'crash':
             fails.append(('totality', name, list(b), 'decode raised ' + r[1]))
             continue
@@ -313,8 +326,17 @@ def oracle_encode_items(payload):
     fails = []
     cnt = {'ok': 0, 'err': 0}
     oks = []
+    hangs = 0
     for t in items:
-        r = py_encode(name, t)
+        try:
+            with common.inner_deadline(5):
+                r = py_encode(name, t)
+        except common.CaseTimeout:
+            fails.append(('hang', name, [ord(c) for c in t], 'encoding these characters did not finish within 5 s'))
+            hangs += 1
+            if hangs >= 3:
+                break
+            continue
         if r[0] == 'crash':
             fails.append(('totality', name, [ord(c) for c in t], 'encode raised ' + r[1]))
             continue
